@@ -10,3 +10,29 @@ package pkix
 //@ props C04
 //@ ensures[C04.subset] result == subsetDN(dn1, dn2)
 //@ loop 1 invariant forall(k, string, visited(k) ==> has(dn2, k) && dn1[k] == dn2[k])
+
+//@ pure func alias(t string) string = ite(t == "S", "ST", t)
+
+//@ func ParseDistinguishedName
+//@ props C04 C09
+//@ ensures[C04.parse-all]  result1 == nil ==> forall(i, 0, dnN(name), rdnN(name, i) == 1 && has(result, alias(atType(name, i, 0))) && result[alias(atType(name, i, 0))] == atValue(name, i, 0))
+//@ ensures[C04.parse-only] result1 == nil ==> forallkeys(k, result, exists(i, 0, dnN(name), alias(atType(name, i, 0)) == k))
+//@ ensures[C04.unique]     result1 == nil ==> forall(i, 0, dnN(name), forall(j, 0, i, alias(atType(name, i, 0)) != alias(atType(name, j, 0))))
+//@ ensures[C04.mandatory]  result1 == nil ==> result["C"] != "" && result["ST"] != "" && result["O"] != ""
+//@ ensures[C04.failclosed] ldapErr(name) != nil || contains(name, "=#") ==> result1 != nil
+//@ ensures result1 != nil ==> result == nil
+//@ ensures result1 == nil ==> fresh(result)
+//@ loop 1 invariant forall(i, 0, rangeindex+1, rdnN(name, i) == 1 && has(attrKeyValue, alias(atType(name, i, 0))) && attrKeyValue[alias(atType(name, i, 0))] == atValue(name, i, 0))
+//@ loop 1 invariant forallkeys(k, attrKeyValue, exists(i, 0, rangeindex+1, alias(atType(name, i, 0)) == k))
+//@ loop 1 invariant forall(i, 0, rangeindex+1, forall(j, 0, i, alias(atType(name, i, 0)) != alias(atType(name, j, 0))))
+//@ loop 1 invariant forall(i, rangeindex+1, dnN(name), forall(a, 0, rdnN(name, i), dn.RDNs[i].Attributes[a].Type == atType(name, i, a) && dn.RDNs[i].Attributes[a].Value == atValue(name, i, a)))
+//@ loop 1 modifies mapobj(attrKeyValue), fieldsof(ldapv3.AttributeTypeAndValue, Type)
+//@ loop 2 invariant rangeindex == -1 || rangeindex == 0
+//@ loop 2 invariant forall(i, 0, rangeindex_L1+1+rangeindex+1, rdnN(name, i) == 1 && has(attrKeyValue, alias(atType(name, i, 0))) && attrKeyValue[alias(atType(name, i, 0))] == atValue(name, i, 0))
+//@ loop 2 invariant forallkeys(k, attrKeyValue, exists(i, 0, rangeindex_L1+1+rangeindex+1, alias(atType(name, i, 0)) == k))
+//@ loop 2 invariant forall(i, 0, rangeindex_L1+1+rangeindex+1, forall(j, 0, i, alias(atType(name, i, 0)) != alias(atType(name, j, 0))))
+//@ loop 2 invariant forall(i, rangeindex_L1+1+rangeindex+1, dnN(name), forall(a, 0, rdnN(name, i), dn.RDNs[i].Attributes[a].Type == atType(name, i, a) && dn.RDNs[i].Attributes[a].Value == atValue(name, i, a)))
+//@ loop 2 modifies mapobj(attrKeyValue), fieldsof(ldapv3.AttributeTypeAndValue, Type)
+//@ loop 3 invariant forall(f, 0, rangeindex+1, attrKeyValue[mandatoryFields[f]] != "")
+//@ loop 3 exit-assert attrKeyValue[mandatoryFields[0]] != "" && attrKeyValue[mandatoryFields[1]] != "" && attrKeyValue[mandatoryFields[2]] != ""
+//@ loop 3 exit-assert mandatoryFields[0] == "C" && mandatoryFields[1] == "ST" && mandatoryFields[2] == "O"
